@@ -152,7 +152,7 @@ PROPERTIES = {
         "explanation": "R-BLOCKONLY; R-UNPERMUTE (vector q: rows come back in the order given); R-TOKEN (q / ddof are part of the layer names); R-DISPATCH (quantile / nanquantile are never renamed to a kernel of the other NaN discipline)",
     },
     "C20": {
-        "rules": [M.rule_collide, M.rule_castorder, rule_infresolve, M.rule_varshift, M.rule_accdtype, M.rule_scanacc, M.rule_finite, CD.rule_countwidth, M.rule_varwidth, M.rule_accforward, rule_dispatch],
+        "rules": [M.rule_collide, M.rule_castorder, rule_infresolve, M.rule_varshift, M.rule_accdtype, M.rule_scanacc, M.rule_finite, CD.rule_countwidth, M.rule_varwidth, M.rule_accforward, rule_dispatch, M.rule_nanfinal],
         "thorough": [selftest, seeded_regression],
         "technique": "sentinel-collision pattern on NaN substitutes; dtype plumbing of the engine wrappers; widening table",
         "level_text": "Static: no all-NaN detector compares a result with its own NaN substitute unless conjoined with a valid-member "
